@@ -50,7 +50,7 @@ def corrupt_conv(r):
     return None
 
 
-def trace_phase(ctx, recs):
+def trace_phase(ctx, recs, kinds):
     trace = strip(recs)
     # a rejected record is reported and validation goes on behind it (bounded number of rounds)
     rest = trace
@@ -64,6 +64,8 @@ def trace_phase(ctx, recs):
         rest = rest[acc + 1:]
     for kind, fn in (("hist", corrupt_hist), ("graph", corrupt_graph), ("conv", corrupt_conv),
                      ("addtol", lambda r: dict(r, ok=not r["ok"]))):
+        if kind not in kinds:
+            continue
         sub = [r for r in trace if r["k"] == kind]
         if sub:
             ctx.binding_demo("Trace_HistOps", "Trace_HistOps.cfg", sub, fn, limit=60)
@@ -84,26 +86,27 @@ def run(ctx):
     try:
         # ---- design level (+ exports)
         f_mc1 = pool.submit(ctx.mc, "HistOps", "HistOps_%s.cfg" % tag, coverage=True,
-                            must_cover=("GetScale", "Scale", "SetNevents", "Add"))
+                            must_cover=("GetScale", "Scale", "SetNevents", "ToGraphScale", "Add", "AddTol"))
         f_mc2 = pool.submit(ctx.mc, "Graph", "Graph_%s.cfg" % tag, coverage=True, must_cover=("GetScale", "Scale"))
         f_conv = pool.submit(hl.mc_export, ctx, "Convert", "Convert_%s.cfg" % tag,
-                             must_cover=("ToGraph", "IterBins", "IterBinsWithEdges", "IterCells", "Csv"), min_records=1000)
+                             must_cover=("ToGraph", "IterBins", "IterBinsWithEdges", "IterCells", "Csv", "Csv3d"), min_records=1000)
         f_h1 = pool.submit(ctx.export, "HistOps", "HistOps_export.cfg", min_records=3000)
         f_h2 = pool.submit(hl.export_generate, ctx, "HistOps", "HistOps_hist_export.cfg",
-                           num=5000 if ctx.thorough else 800, depth=8, min_records=500)
+                           num=5000 if ctx.thorough else 500, depth=8, min_records=300)
         # every order of scale() / scale(recompute) / scale(s) / set_nevents / c = a.add(b) (go on with c), length 4 (5)
-        f_mc3 = pool.submit(ctx.mc, "HistOps", "HistOps_seq.cfg", coverage=True, must_cover=("GetScale", "Scale", "SetNevents", "Add"))
+        f_mc3 = pool.submit(ctx.mc, "HistOps", "HistOps_seq.cfg", coverage=True, must_cover=("GetScale", "Scale", "SetNevents", "ToGraphScale", "Add"))
         f_h3 = pool.submit(ctx.export, "HistOps", "HistOps_seq_export.cfg", min_records=3000)
         f_g3 = pool.submit(ctx.export, "Graph", "Graph_seq_export.cfg", min_records=1000)
         f_g1 = pool.submit(ctx.export, "Graph", "Graph_export.cfg", min_records=3000)
-        f_g2 = pool.submit(hl.export_generate, ctx, "Graph", "Graph_hist_export.cfg",
-                           num=4000 if ctx.thorough else 600, depth=6, min_records=400)
+        # (random graph histories only in the thorough tier: Graph_seq_export has every history of length 4)
+        f_g2 = pool.submit(hl.export_generate, ctx, "Graph", "Graph_hist_export.cfg", num=4000, depth=6,
+                           min_records=400) if ctx.thorough else None
 
         # ---- code -> spec (all random choices here, in a fixed order)
         m = 6 if ctx.thorough else 1
         recs = (h12.record_histops(rnd, 500 * m, report) + h12.record_graphs(rnd, 500 * m, report)
                 + h12.record_conversions(rnd, 500 * m, report) + h12.record_addtol(rnd, 600 * m, report))
-        f_trace = pool.submit(trace_phase, ctx, recs)
+        f_trace = pool.submit(trace_phase, ctx, recs, ("hist", "graph", "conv", "addtol") if ctx.thorough else ("hist", "conv"))
 
         # ---- spec -> code
         extra = ctx.extra
@@ -119,6 +122,8 @@ def run(ctx):
                 ctx.case([what, rec], nontrivial=True)
             ctx.sample({"spec_" + what: hrecs[len(hrecs) // 2]})
         for fut, what in ((f_g1, "graph_op"), (f_g2, "graph_history"), (f_g3, "graph_scale_sequence")):
+            if fut is None:
+                continue
             grecs = fut.result()
             for k, rec in enumerate(grecs):
                 h12.replay_graph(ctx, rec, k, report)
